@@ -89,6 +89,21 @@ def _lazy(nodes, l, depth=0):
     return _lazy(nodes, n[1], depth + 1)
 
 
+def _generator_source(body, nodes, l):
+    """the innermost source of the chain is a generator (`successors`, `from_fn`): nothing is gained by writing the
+    collection out as a loop over an opaque next(), and the rules that know the lazy walk lose its shape"""
+    for _ in range(8):
+        n = nodes.get(l)
+        if n is None:
+            break
+        l = n[1]
+    for blk in body.blocks:
+        t = blk['term']
+        if not blk['cleanup'] and t['k'] == 'call' and t['dest'] == {'l': l, 'p': []}:
+            return (t['func'].get('path') or '') in ('std::iter::successors', 'std::iter::from_fn')
+    return False
+
+
 def _ref_target(body, bi, local):
     """the place X when `local = &mut X` is assigned in block bi"""
     for _ in range(3):
@@ -271,7 +286,7 @@ def expand_lazy_iterators(body, crate, max_rounds=6):
             if t['func'].get('path') == COLLECT and len(t['args']) == 1 and t['target'] is not None:
                 x = _plain(t['args'][0])
                 dty = cur.local_ty(t['dest']['l']) if not t['dest']['p'] else ''
-                if x is not None and _lazy(nodes, x) and dty.startswith('std::vec::Vec<'):
+                if x is not None and _lazy(nodes, x) and dty.startswith('std::vec::Vec<') and not _generator_source(cur, nodes, x):
                     cur = _collect_to_loop(cur, bi)
                     used.add('collect@%s' % body.path)
                     did = True
